@@ -1,0 +1,14 @@
+//go:build verif
+
+// Contracts for package hcoords, read by /verif's govc. Comment-only.
+package hcoords
+
+// C12: over the reals, for two lines that are not parallel, the homogeneous-coordinate formula returns THE
+// common point of the two lines (the orientation determinant of each line with the result vanishes)
+//@ func GetIntersection
+//@   floats real
+//@   requires len(line1End1) >= 2 && len(line1End2) >= 2 && len(line2End1) >= 2 && len(line2End2) >= 2
+//@   requires [not-parallel] (line1End1[1] - line1End2[1]) * (line2End2[0] - line2End1[0]) - (line2End1[1] - line2End2[1]) * (line1End2[0] - line1End1[0]) != 0.0
+//@   ensures res2 == nil && len(res1) == 2 && fresh(res1)
+//@   ensures cross2(line1End1[0], line1End1[1], line1End2[0], line1End2[1], res1[0], res1[1]) == 0.0 && cross2(line2End1[0], line2End1[1], line2End2[0], line2End2[1], res1[0], res1[1]) == 0.0
+//@   modifies nothing
